@@ -352,6 +352,10 @@ def g_time(rng):
         return 23, 59, 59, 999999
     if r < 0.55:
         return 12, 0, 0, 0
+    if r < 0.67:
+        # the time of day lives in exactly one field (only us / only seconds / only minutes / only hours)
+        return rng.choice([(0, 0, 0, rng.choice([1, 250000, 999999])), (0, 0, rng.randint(1, 59), 0),
+                           (0, rng.randint(1, 59), 0, 0), (rng.randint(1, 23), 0, 0, 0)])
     return (rng.randint(0, 23), rng.randint(0, 59), rng.randint(0, 59), rng.choice([0, 1, 999999, rng.randint(0, 999999)]))
 
 
